@@ -862,8 +862,10 @@ class BlobStorage(BlobStorageMixin):
             if not os.listdir(oid_path):
                 shutil.rmtree(oid_path)
 
-    def pack(self, packtime, referencesf):
+    def pack(self, packtime, referencesf, **kw):
         """Remove all unused OID/TID combinations."""
+        # (keyword arguments, like FileStorage's and MappingStorage's gc,
+        # are for the wrapped storage)
         with self._lock:
             if self._blobs_pack_is_in_progress:
                 raise BlobStorageError('Already packing')
@@ -873,7 +875,7 @@ class BlobStorage(BlobStorageMixin):
             # Pack the underlying storage, which will allow us to determine
             # which serials are current.
             unproxied = self.__storage
-            result = unproxied.pack(packtime, referencesf)
+            result = unproxied.pack(packtime, referencesf, **kw)
 
             # Perform a pack on the blob data.
             if self.__supportsUndo:
